@@ -25,6 +25,20 @@ def hist : H := fun j => do
       ("thr", thrJ p.thr), ("nBatches", Json.num (JsonNumber.fromNat p.nBatches))])).toArray),
     ("nBatches", Json.num (JsonNumber.fromNat st.nBatches))])
 
-def handlers : List (String × H) := [("C07.history", hist)]
+/-- exact rational evaluation of the importance weights:
+    {"prior":[q…] (one per new particle), "kernel":[[k_ij…]…] (row i: densities of particle i under each
+    component j), "w":[previous weights]} → {"weights":[q…]} -/
+def weightsH : H := fun j => do
+  let prior ← getRatList j "prior"
+  let kern ← (← getArr j "kernel").toList.mapM (fun r => do (← r.getArr?).toList.mapM ratOfJson)
+  let w ← getRatList j "w"
+  let karr := kern.toArray
+  let parr := prior.toArray
+  let kernel : Nat → Nat → Rat := fun i m => (karr.getD i []).getD m 0
+  let out := (List.range prior.length).map (fun i =>
+    smcWeight (fun i => parr.getD i 0) kernel (List.range w.length) w i)
+  pure (Json.mkObj [("weights", ratsToJson out)])
+
+def handlers : List (String × H) := [("C07.history", hist), ("C07.weights", weightsH)]
 
 end ElfiVerif.Drive.C07
